@@ -284,12 +284,12 @@ def derive_symbol(symbol, prefix='', suffix=''):
     """Returns a new symbol named after ``symbol`` with the given ``prefix``
     and ``suffix``, which must consist of simple symbol characters.
 
-    Returns ``None`` if ``symbol`` is not a symbol (i.e., not a leaf node) or
+    Returns ``None`` if ``symbol`` is not a symbol (not a leaf, or a constant) or
     if the new symbol is already declared. For a quoted symbol ``|x y|`` the
     result is quoted as well: ``|<prefix>x y<suffix>|``. Requires that global
     information has been populated via ``collect_information``.
     """
-    if not symbol.is_leaf():
+    if not symbol.is_leaf() or is_const(symbol):
         return None
     if is_piped_symbol(symbol):
         res = Node(f'|{prefix}{symbol.data[1:-1]}{suffix}|')
